@@ -299,6 +299,7 @@ func runProgram(p Program) (map[string]float64, *rig.Violation) {
 		return out
 	}
 
+	pTrace := p.Trace
 	var writersActive atomic.Int32
 	var overlaps, rops, wops atomic.Int64
 	var viol atomic.Pointer[rig.Violation]
@@ -428,9 +429,24 @@ func runProgram(p Program) (map[string]float64, *rig.Violation) {
 						fail(rig.Violf("reader-fault", "%s: Routes() panicked: %v", where, v))
 						break
 					}
-					for p := range routes {
+					for p, ms := range routes {
 						if p != "*" && !all[p] {
 							fail(rig.Violf("routes-unknown-pattern", "%s: Routes() lists %q", where, p))
+						}
+						// whatever instant the listing shows, a listed pattern has its OPTIONS and at least one more method
+						// (with a TRACE handler: one more besides TRACE) - no state of a router lists a pattern with less
+						min, hasOpt := 2, false
+						if p == "*" {
+							min = 1
+						}
+						for _, m := range ms {
+							hasOpt = hasOpt || m == "OPTIONS"
+							if m == "TRACE" && pTrace {
+								min++
+							}
+						}
+						if !hasOpt || len(ms) < min {
+							fail(rig.Violf("routes-impossible-entry", "%s: Routes()[%q] = %v - no router ever lists a pattern like that (the whole listing: %v)", where, p, ms, routes))
 						}
 					}
 					for _, u := range untouched {
@@ -570,8 +586,10 @@ func runProgram(p Program) (map[string]float64, *rig.Violation) {
 			}
 		}
 		for _, tg := range toggled {
-			if rv := rival[tg.pattern]; rv != "" && registered[rv] {
-				continue // its registration may have been refused because the other spelling was live
+			if rv := rival[tg.pattern]; rv != "" && (registered[rv] || (p.Rounds > 1 && removable[rv])) {
+				// its registration may have been refused because the other spelling was live (a mini program starts
+				// with every pattern some writer removes already registered)
+				continue
 			}
 			if registered[tg.pattern] && !removable[tg.pattern] {
 				if _, ok := routes[tg.pattern]; !ok {
@@ -624,7 +642,7 @@ func TestChild(t *testing.T) {
 // ---- parent -----------------------------------------------------------------
 
 var stats = rig.NewStats("C06",
-	"rapid draws a concurrent program: 1-4 writer scripts (20-200 Handle / Remove / Remove(methods) / Prefix.Clean ops on ten toggled patterns chosen to split and re-merge the nodes of three never-touched routes) and 1-6 reader scripts (20-200 ops: requests to never-touched routes with per-op distinct parameter values, requests to toggled routes, OPTIONS / 405 probes, Routes(), strict URL), generated Gosched points, GOMAXPROCS in {2,4,16}; the program runs in a child process built with -race (halt_on_error) on a WithLock(true) router. Half of the programs run on a router that also has a TRACE handler. Oracle: no race report, no fatal runtime error, no deadlock (after 40 s every remaining program goroutine blocked on the router's lock), child exits 0; never-touched routes are always answered by their own handler with their own parameters and exact Allow sets; toggled requests get 404, or a handler / 405 / OPTIONS belonging to the very route they report with conforming parameters - never a zero or foreign handler; Routes() only lists program patterns and always the never-touched ones; strict URL of never-touched routes always succeeds. A third of the programs run with WithRecovery, a never-touched route whose handler panics and one whose interceptor function panics on one value, i.e. while the tree is searched under the read lock (readers request both: 500, own route, own parameters - and the router must go on working). A quarter of the programs reach the router through Group.ServeHTTP (router made by Group.New, matcher nil). One program in four is a mini program (2-4 writers x 1-4 operations on a duel pair or on a rival pair - one route under two parameter names - re-run 100-600 times on fresh routers). Once all goroutines have finished the state must be one a sequential router can be in: never both routes of a rival pair listed, every route that was registered and that nothing removes listed, and for every toggled route and seven methods Routes(), the node's method list and dispatch agree. Non-trivial: a program in which reader operations overlapped a writer operation (sampled with an atomic in-flight counter; the overlapping count is reported); distinct by hash of the program",
+	"rapid draws a concurrent program: 1-4 writer scripts (20-200 Handle / Remove / Remove(methods) / Prefix.Clean ops on ten toggled patterns chosen to split and re-merge the nodes of three never-touched routes) and 1-6 reader scripts (20-200 ops: requests to never-touched routes with per-op distinct parameter values, requests to toggled routes, OPTIONS / 405 probes, Routes(), strict URL), generated Gosched points, GOMAXPROCS in {2,4,16}; the program runs in a child process built with -race (halt_on_error) on a WithLock(true) router. Half of the programs run on a router that also has a TRACE handler. Oracle: no race report, no fatal runtime error, no deadlock (after 40 s every remaining program goroutine blocked on the router's lock), child exits 0; never-touched routes are always answered by their own handler with their own parameters and exact Allow sets; toggled requests get 404, or a handler / 405 / OPTIONS belonging to the very route they report with conforming parameters - never a zero or foreign handler; Routes() only lists program patterns and always the never-touched ones, and every listed pattern has OPTIONS and at least one more method (a listing is a snapshot of one state); strict URL of never-touched routes always succeeds. A third of the programs run with WithRecovery, a never-touched route whose handler panics and one whose interceptor function panics on one value, i.e. while the tree is searched under the read lock (readers request both: 500, own route, own parameters - and the router must go on working). A quarter of the programs reach the router through Group.ServeHTTP (router made by Group.New, matcher nil). One program in four is a mini program (2-4 writers x 1-4 operations on a duel pair or on a rival pair - one route under two parameter names - re-run 100-600 times on fresh routers). Once all goroutines have finished the state must be one a sequential router can be in: never both routes of a rival pair listed, every route that was registered and that nothing removes listed, and for every toggled route and seven methods Routes(), the node's method list and dispatch agree. Non-trivial: a program in which reader operations overlapped a writer operation (sampled with an atomic in-flight counter; the overlapping count is reported); distinct by hash of the program",
 	"interleavings are sampled by the Go scheduler, not enumerated; the race detector's happens-before analysis flags unsynchronised access pairs once both accesses execute",
 	"Router.Use is not part of the program (the property does not list it)")
 
